@@ -168,3 +168,36 @@ def cursor_free_paths(b, all_fields, cursor):
                 out.append((r, v))
                 break
     return out
+
+
+def range_reversed_rule(F, rep, rid):
+    """A `reversed` override of streams::Range, if there is one: the first element of the reversed range is
+    start + (len - 1) * step, which needs a division (or a length) unless the step is +-1. A new Range whose start is computed
+    from the bounds and the step by additions / subtractions / negations alone (`end - step`) is wrong for every range whose
+    span is not a multiple of the step. Zero instances on a tree without the override (the default forces and reverses)."""
+    import re
+    rep.rule(rid, 'a `reversed` override of Range (none exists on the reviewed tree: the default forces the stream and reverses the list) '
+             'may build a new Range only with a first element derived through a division, remainder or length - `end - step` is the last '
+             'element only when the span is a multiple of the step')
+    n = 0
+    for imp in F.impls:
+        if imp['trait'] != 'core::Stream' or not imp['self_ty'].startswith('streams::Range'):
+            continue
+        fn = F.impl_fn(imp, 'reversed')
+        if not fn or not F.has_fn(fn):
+            continue
+        bodies = [F.body(fn)] + [F.body(c) for c in F.closures_of(fn)]
+        for b in bodies:
+            for bb, s_ in b.aggregates(b.reach):
+                if s_[2][1] != 'adt' or not str(s_[2][2]).startswith('streams::Range') or not s_[2][5]:
+                    continue
+                n += 1
+                rts = b.roots(s_[2][5][0], through_calls=('sub', 'add', 'neg', 'clone', 'mul', 'from', 'into', 'deref', 'borrow', 'as_ref', 'to_owned'))
+                divs = [r_ for r_ in rts if (r_[0] == 'call' and re.search(r'::(div|div_floor|rem|mod_floor|div_rem|div_mod_floor|len|checked_div|checked_rem|rem_euclid|div_euclid)$', r_[1]))
+                        or (r_[0] == 'bin' and r_[1] in ('Div', 'Rem'))]
+                if divs:
+                    rep.ok(rid, '%s: new Range' % b.path, 'first element derived through %s' % divs[0][1])
+                else:
+                    rep.viol(rid, 'streams::Range|reversed|first-element-without-division', 'Range::reversed builds a new Range whose first element is computed from the bounds and the step without a division or a length: for `1 til 9 by 3` it starts at 6 instead of 7', b.loc(bb))
+    if n == 0:
+        rep.ok(rid, 'streams::Range', 'no `reversed` override builds a Range (default: force and reverse)')
